@@ -130,9 +130,11 @@ def oracle_markup(doc):
             else:
                 import re
 
-                names = [v for f in fulls if f.span()[1] <= s0 for k in M.ReferenceCitation.name_fields if (v := getattr(f.metadata, k, None))]
+                from eyecite.utils import is_valid_name
+
+                names = [v for f in fulls if f.span()[1] <= s0 for k in M.ReferenceCitation.name_fields if (v := getattr(f.metadata, k, None)) and is_valid_name(v)]
                 if not any(re.search(r"\s+".join(map(re.escape, v.split())), plain[s0:s1]) for v in names if v.split()):
-                    bad.append(f"C19:reference {r.span()} {plain[s0:s1]!r} contains no party or resolved name of an earlier full case citation")
+                    bad.append(f"C19:reference {r.span()} {plain[s0:s1]!r} contains no party or resolved name of an earlier full case citation that passes the name-validity rule")
     return bad
 
 
@@ -146,9 +148,17 @@ def replay_file(path):
         import eyecite.models as M
         from eyecite import get_citations
 
-        bad = [r["text"][c.span()[0] : c.span()[1]] for c in get_citations(r["text"]) if isinstance(c, M.ReferenceCitation) and not re.search(r"Foo Bar|Baz", r["text"][c.span()[0] : c.span()[1]])]
+        bad = [r["text"][c.span()[0] : c.span()[1]] for c in get_citations(r["text"]) if isinstance(c, M.ReferenceCitation) and not re.search(r.get("spec") or r"Foo Bar|Baz", r["text"][c.span()[0] : c.span()[1]])]
         print(bad)
         return 1 if bad else 0
     bad = oracle_markup(r["markup"])
+    if r.get("spec"):
+        import re
+
+        import eyecite.models as M
+        from eyecite import clean_text, get_citations
+
+        plain = clean_text(r["markup"], ["html", "all_whitespace"])
+        bad += [plain[c.span()[0] : c.span()[1]] for c in get_citations(markup_text=r["markup"], clean_steps=["html", "all_whitespace"]) if isinstance(c, M.ReferenceCitation) and not re.search(r["spec"], plain[c.span()[0] : c.span()[1]])]
     print(bad)
     return 1 if bad else 0
